@@ -240,6 +240,11 @@ class Numeric:
             if o.kind in ('PANIC', 'UNWRAP') and o.causes and all(c in allowed_causes for c in o.causes):
                 ctx.cov['designated'] += 1
                 continue
+            if oid in getattr(ctx, 'auto_by_classes', {}):
+                # discharged in every member of an exhaustive finite partition of the function's inputs (see the note)
+                ctx.cov['discharged'] += 1
+                ctx.cov['notes'].append(f'discharged by case analysis: {oid}: {ctx.auto_by_classes[oid]}')
+                continue
             if oid in ctx.hand:
                 ctx.cov['hand_discharged'] += 1
                 ctx.cov['notes'].append(f'hand-discharged: {oid}')
